@@ -785,6 +785,166 @@ fn hook_counts() -> (u64, u64) {
     )
 }
 
+/// C20 on library crates other than the corelib: every `(lib, main)` pair of the project at `dir`
+/// is compiled with the lib analysed from source, the lib's cache is generated from that very
+/// database, and the dependent is compiled again on a fresh database that gets the lib as a blob.
+fn compare_lib_caches(ctx: &mut Ctx, cfg: &Config, dir: &Path, pairs: &[(String, String)], label: &str) {
+    type Obs = (String, Option<String>, String);
+    let observe_main = |db: &RootDatabase, input: &CrateInput| -> Obs {
+        let inputs = vec![input.clone()];
+        let (d, s) = observe(db, &inputs);
+        let casm = match &s {
+            Some(_) => comp::sierra(db, &inputs).ok().and_then(|p| crate::serde_checks::casm_text(&p)).unwrap_or_default(),
+            None => String::new(),
+        };
+        (d, s, casm)
+    };
+    let named = |inputs: &[CrateInput], wanted: &str| -> Option<CrateInput> {
+        inputs.iter().find(|i| matches!(i, CrateInput::Real { name, .. } if name == wanted)).cloned()
+    };
+    // From source; and the caches.
+    let from_source = guarded(|| {
+        let mut db = comp::build_db(cfg, Plugins::Default);
+        let inputs = setup_project(&mut db, dir).map_err(|e| format!("{e}"))?;
+        let mut out: Vec<Option<(Obs, Vec<u8>)>> = vec![];
+        for (lib, main) in pairs {
+            let (Some(lib_in), Some(main_in)) = (named(&inputs, lib), named(&inputs, main)) else {
+                out.push(None);
+                continue;
+            };
+            // The library itself must be free of errors to be cached.
+            let (_, lib_errors) = comp::diagnostics(&db, std::slice::from_ref(&lib_in));
+            if lib_errors {
+                out.push(None);
+                continue;
+            }
+            let obs = observe_main(&db, &main_in);
+            let lib_id = CrateInput::into_crate_ids(&db, vec![lib_in])[0];
+            match generate_crate_cache(&db, lib_id) {
+                Ok(blob) => out.push(Some((obs, blob))),
+                Err(_) => out.push(None),
+            }
+        }
+        Ok::<_, String>(out)
+    });
+    let from_source = match from_source {
+        Ok(Ok(v)) => v,
+        Ok(Err(e)) => {
+            ctx.harness_error(format!("{label}: project does not open: {e}"));
+            return;
+        }
+        Err((loc, msg)) => {
+            ctx.inconclusive(&format!("from-source build of a library project panicked: {}", panic_sig(&loc, &msg)));
+            return;
+        }
+    };
+    // From the caches, on a fresh database.
+    verif::reset_counters();
+    let from_cache = guarded(|| {
+        let mut db = comp::build_db(cfg, Plugins::Default);
+        let inputs = setup_project(&mut db, dir).map_err(|e| format!("{e}"))?;
+        let mut crate_configs = files_group_input(&db).crate_configs(&db).clone().unwrap();
+        for ((lib, _), src) in pairs.iter().zip(&from_source) {
+            if let (Some((_, blob)), Some(lib_in)) = (src, named(&inputs, lib)) {
+                crate_configs.get_mut(&lib_in).expect("lib configured").cache_file = Some(BlobLongId::Virtual(blob.clone()));
+            }
+        }
+        set_crate_configs_input(&mut db, Some(crate_configs));
+        let mut out: Vec<Option<(Obs, u64)>> = vec![];
+        for ((_, main), src) in pairs.iter().zip(&from_source) {
+            let (Some(_), Some(main_in)) = (src, named(&inputs, main)) else {
+                out.push(None);
+                continue;
+            };
+            let before = hook_counts().0;
+            let obs = observe_main(&db, &main_in);
+            out.push(Some((obs, hook_counts().0 - before)));
+        }
+        Ok::<_, String>(out)
+    });
+    let from_cache = match from_cache {
+        Ok(Ok(v)) => v,
+        Ok(Err(e)) => {
+            ctx.harness_error(format!("{label}: project does not open with caches: {e}"));
+            return;
+        }
+        Err((loc, msg)) => {
+            ctx.violation(
+                &format!("cache-panic:{}", panic_sig(&loc, &msg)),
+                &format!("{label}: compiling against library caches panicked at {loc}: {msg} (the from-source build did not)"),
+                json!({"library_project": dir.display().to_string(), "cfg": cfg, "label": label}),
+            );
+            return;
+        }
+    };
+    for (((lib, main), src), cached) in pairs.iter().zip(from_source).zip(from_cache) {
+        ctx.eval();
+        let (Some((oa, blob)), Some((ob, hits))) = (src, cached) else {
+            ctx.count("library_pairs_skipped(lib has errors)", 1);
+            continue;
+        };
+        ctx.count("library_cache_bytes", blob.len() as u64);
+        if oa != ob {
+            let what = if oa.0 != ob.0 { "diagnostics" } else if oa.1 != ob.1 { "sierra" } else { "casm" };
+            let (x, y) = match what { "diagnostics" => (oa.0.clone(), ob.0.clone()), "sierra" => (oa.1.clone().unwrap_or_default(), ob.1.clone().unwrap_or_default()), _ => (oa.2.clone(), ob.2.clone()) };
+            let at = x.bytes().zip(y.bytes()).take_while(|(p, q)| p == q).count();
+            let lib_src = std::fs::read_to_string(dir.join(lib).join("lib.cairo")).unwrap_or_default();
+            let main_src = std::fs::read_to_string(dir.join(main).join("lib.cairo")).unwrap_or_default();
+            ctx.violation(
+                &format!("library-cache-differs:{what}"),
+                &format!("{label} {main} [{}]: {what} with `{lib}` from its cache differ from the from-source build at byte {at}: source {:?} vs cache {:?}", cfg.name(),
+                    &x[at.saturating_sub(60).min(x.len())..(at + 120).min(x.len())], &y[at.saturating_sub(60).min(y.len())..(at + 120).min(y.len())]),
+                json!({"library_pair": {"lib": lib, "main": main, "lib_source": lib_src, "main_source": main_src}, "cfg": cfg}),
+            );
+            continue;
+        }
+        ctx.count("library_lowerings_served_from_cache", hits);
+        if hits > 0 && oa.1.is_some() {
+            ctx.nontrivial(fnv_str(&format!("{label}|{main}|{}", cfg.name())));
+            ctx.count("library_pairs_equal", 1);
+        } else if oa.1.is_none() {
+            ctx.count("library_dependents_with_errors", 1);
+        } else {
+            ctx.inconclusive("no lowering of the library was served from its cache");
+        }
+    }
+}
+
+const LIB_PROJECT_TOML_HEAD: &str = "[config.global]\nedition = \"2025_12\"\n\n";
+
+/// Writes a project of generated (library, dependent) pairs under `dir`; returns the pairs.
+fn write_generated_library_project(dir: &Path, seed: u64, first: u64, n: u64) -> Vec<(String, String)> {
+    let _ = std::fs::remove_dir_all(dir);
+    let mut roots = String::from("[crate_roots]\n");
+    let mut deps = String::from("[config.global.dependencies]\n");
+    let mut pairs = vec![];
+    for i in first..first + n {
+        let mut rng = Rng::derive(seed, &[1, i]);
+        let Ok((program, _)) = guarded(|| crate::pgen::generate(&mut rng)) else { continue };
+        let src = crate::pgen::render_program(&program);
+        // Everything public; the dependent calls `main` with its own parameters.
+        let lib_src = format!("\n{src}").replace("\nfn ", "\npub fn ").replace("\nstruct ", "\npub struct ").replace("\nenum ", "\npub enum ");
+        let Some(start) = lib_src.find("pub fn main(") else { continue };
+        let rest = &lib_src[start + "pub fn main(".len()..];
+        let Some(end) = rest.find(") -> ") else { continue };
+        let params = &rest[..end];
+        let names: Vec<&str> = params.split(", ").filter(|p| !p.is_empty()).map(|p| p.split(':').next().unwrap_or("").trim()).collect();
+        let (lib, main) = (format!("genlib{i}"), format!("genmain{i}"));
+        let main_src = format!("fn entry({params}) {{\n    let _r = {lib}::main({});\n}}\n", names.join(", "));
+        for (name, text) in [(&lib, &lib_src), (&main, &main_src)] {
+            let d = dir.join(name);
+            if std::fs::create_dir_all(&d).is_err() || std::fs::write(d.join("lib.cairo"), text).is_err() {
+                continue;
+            }
+            roots.push_str(&format!("{name} = \"{name}\"\n"));
+        }
+        deps.push_str(&format!("{lib} = {{ discriminator = \"{lib}\" }}\n"));
+        pairs.push((lib, main));
+    }
+    let _ = std::fs::write(dir.join("cairo_project.toml"), format!("{roots}\n{LIB_PROJECT_TOML_HEAD}{deps}"));
+    pairs
+}
+
 pub fn c20_worker(ctx: &mut Ctx) {
     install_panic_hook();
     let cfgs: Vec<Config> = ctx.tier.pick(
@@ -907,12 +1067,46 @@ pub fn c20_worker(ctx: &mut Ctx) {
             }
             ctx.maybe_flush();
         }
+        // ---- Library crates other than the corelib, supplied as caches.
+        if ctx.mine((ci * 100_000 + 99_999) as u64) {
+            compare_lib_caches(ctx, cfg, Path::new("/verif/harness/projects/cachelib"), &[("featlib".to_string(), "featmain".to_string())], "feature-library");
+        }
+        let batch: u64 = ctx.tier.pick(6, 40);
+        let dir = PathBuf::from(format!("/verif/work/c20_libs/s{}_c{ci}", ctx.shard));
+        let first = (ctx.shard as u64) * 1000 + (ci as u64) * 100_000;
+        let pairs = write_generated_library_project(&dir, ctx.seed, first, batch);
+        ctx.count("generated_library_pairs", pairs.len() as u64);
+        compare_lib_caches(ctx, cfg, &dir, &pairs, "generated-library");
+        let _ = std::fs::remove_dir_all(&dir);
+        ctx.maybe_flush();
     }
 }
 
 pub fn c20_replay(case: &serde_json::Value) -> Result<Option<String>, String> {
     install_panic_hook();
     let cfg: Config = serde_json::from_value(case["cfg"].clone()).map_err(|e| e.to_string())?;
+    if let Some(pair) = case.get("library_pair") {
+        // Re-create the two crates of the recorded pair and compare again.
+        let (lib, main) = (pair["lib"].as_str().ok_or("no lib")?, pair["main"].as_str().ok_or("no main")?);
+        let dir = PathBuf::from(format!("/verif/work/c20_libs/replay_{}", std::process::id()));
+        let _ = std::fs::remove_dir_all(&dir);
+        for (name, key) in [(lib, "lib_source"), (main, "main_source")] {
+            std::fs::create_dir_all(dir.join(name)).map_err(|e| e.to_string())?;
+            std::fs::write(dir.join(name).join("lib.cairo"), pair[key].as_str().unwrap_or("")).map_err(|e| e.to_string())?;
+        }
+        std::fs::write(
+            dir.join("cairo_project.toml"),
+            format!("[crate_roots]\n{lib} = \"{lib}\"\n{main} = \"{main}\"\n\n{LIB_PROJECT_TOML_HEAD}[config.global.dependencies]\n{lib} = {{ discriminator = \"{lib}\" }}\n"),
+        )
+        .map_err(|e| e.to_string())?;
+        let mut ctx = Ctx::new("C20", crate::report::Tier::Quick, 1, 0, 1, 0, PathBuf::from("/verif/work/replay_c20.json"));
+        compare_lib_caches(&mut ctx, &cfg, &dir, &[(lib.to_string(), main.to_string())], "replay");
+        let _ = std::fs::remove_dir_all(&dir);
+        return Ok(ctx.res.violations.first().map(|v| format!("{}: {}", v.sig, v.desc)));
+    }
+    if case.get("library_project").is_some() {
+        return Err("a panic of a whole library project is not replayable individually; rerun the check".into());
+    }
     let name = case["dependent"].as_str().ok_or("no dependent")?;
     let code = case["code"].as_str().unwrap_or("");
     let cache = {
